@@ -8,6 +8,24 @@ Open Scope Z_scope.
 Open Scope list_scope.
 
 Ltac splits := repeat match goal with |- _ /\ _ => split end.
+(* case analysis on every boolean test in the goal / in a hypothesis *)
+Ltac dif :=
+  repeat match goal with
+         | |- context [if ?b then _ else _] =>
+             lazymatch b with
+             | context [if _ then _ else _] => fail
+             | _ => destruct b eqn:?; cbn [andb orb negb]
+             end
+         end.
+(* same, and turn the successful Z equality tests into substitutions *)
+Ltac difs :=
+  dif;
+  repeat match goal with H : (_ =? _) = true |- _ => apply Z.eqb_eq in H end;
+  repeat match goal with H : ?x = ?y |- _ => first [subst x | subst y] end.
+Ltac dif_in H :=
+  repeat match type of H with
+         | context [if ?b then _ else _] => destruct b eqn:?
+         end.
 
 (* ------------------------------------------------------------------ *)
 (* views of the primitive state updates                                 *)
@@ -109,3 +127,469 @@ Global Hint Rewrite cnt_inc_count cell_inc_count nil_inc_count cnt_set_f2g cell_
 Ltac fields :=
   cbn [m_dc m_counts m_row m_col m_table m_f2g m_heap
        set_dc set_next set_counts set_table set_f2g set_heap inc_count release_row] in *.
+
+(* ------------------------------------------------------------------ *)
+Section Inv.
+Variables ROW COL : Z.
+Hypothesis HROW : 0 < ROW.
+Hypothesis HCOL : 1 < COL.
+
+Notation inv := (matrix_inv ROW COL).
+Notation cntat := (cnt_at COL).
+
+Lemma plt_pltb : forall r c r' c', pltb r c r' c' = true <-> plt r c r' c'.
+Proof. intros. unfold plt, pltb. lia. Qed.
+
+Lemma cell_some_live : forall st r c id, inv st -> cell st r c = Some id ->
+  0 <= r /\ 0 <= c < COL /\ plt r c (m_row st) (m_col st).
+Proof. intros st r c id I H. apply (inv_live _ _ _ I). congruence. Qed.
+
+Lemma live_cell_some : forall st r c, inv st -> 0 <= r -> 0 <= c < COL ->
+  plt r c (m_row st) (m_col st) -> exists id, cell st r c = Some id.
+Proof.
+  intros st r c I Hr Hc Hp. destruct (cell st r c) as [id|] eqn:E; [eauto|].
+  exfalso. assert (cell st r c <> None) as X by (apply (inv_live _ _ _ I); auto). congruence.
+Qed.
+
+Lemma dead_cell_none : forall st r c, inv st -> ~ plt r c (m_row st) (m_col st) -> cell st r c = None.
+Proof.
+  intros st r c I Hp. destruct (cell st r c) as [id|] eqn:E; [|reflexivity].
+  exfalso. apply Hp. eapply cell_some_live; eauto.
+Qed.
+
+Lemma cell_none_out : forall st r c, inv st ->
+  ~ (0 <= r /\ 0 <= c < COL /\ plt r c (m_row st) (m_col st)) -> cell st r c = None.
+Proof.
+  intros st r c I Hp. destruct (cell st r c) as [id|] eqn:E; [|reflexivity].
+  exfalso. apply Hp. eapply cell_some_live; eauto.
+Qed.
+
+(* lookups see exactly the cells *)
+Lemma mx_get_some : forall st fd id, inv st ->
+  (mx_get st fd = Some id <->
+   exists r c, cell st r c = Some id /\ zget (m_heap st) id = Some (mkConn fd (mkGfd r c fd))).
+Proof.
+  intros st fd id I. unfold mx_get. split.
+  - destruct (zget (m_f2g st) fd) as [g|] eqn:E; [|discriminate]. intro H.
+    destruct (inv_f2g _ _ _ I _ _ E) as (Hfd & id' & Hc & Hh).
+    rewrite Hc in H. inversion H; subst id'. exists (g_row g), (g_col g). split; [exact Hc|].
+    rewrite Hh. destruct g; cbn in *; subst; reflexivity.
+  - intros (r & c & Hc & Hh). destruct (inv_cell _ _ _ I _ _ _ Hc) as (fd' & Hh' & Hg).
+    rewrite Hh in Hh'. inversion Hh'; subst fd'. rewrite Hg. cbn. exact Hc.
+Qed.
+
+Lemma mx_get_none_f2g : forall st fd, inv st -> mx_get st fd = None -> zget (m_f2g st) fd = None.
+Proof.
+  intros st fd I H. destruct (zget (m_f2g st) fd) as [g|] eqn:E; [|reflexivity].
+  destruct (inv_f2g _ _ _ I _ _ E) as (_ & id & Hc & _). unfold mx_get in H. rewrite E, Hc in H. discriminate.
+Qed.
+
+Lemma cell_iff_get : forall st id, inv st ->
+  ((exists r c, cell st r c = Some id) <-> exists fd, mx_get st fd = Some id).
+Proof.
+  intros st id I. split.
+  - intros (r & c & Hc). destruct (inv_cell _ _ _ I _ _ _ Hc) as (fd & Hh & _).
+    exists fd. apply mx_get_some; eauto.
+  - intros (fd & H). apply mx_get_some in H; auto. destruct H as (r & c & Hc & _). eauto.
+Qed.
+
+(* ---- init ---- *)
+Lemma cell_init : forall r c, cell mx_init r c = None.
+Proof. intros. unfold cell, mx_init; cbn. rewrite zget_zempty. reflexivity. Qed.
+Lemma cnt_init : forall r, cnt mx_init r = 0.
+Proof. intros. unfold cnt, mx_init; cbn. rewrite zget_zempty. reflexivity. Qed.
+Lemma nil_init : forall r, row_nil mx_init r = true.
+Proof. intros. unfold row_nil, mx_init; cbn. rewrite zget_zempty. reflexivity. Qed.
+
+Lemma inv_init : inv mx_init.
+Proof.
+  constructor.
+  - reflexivity.
+  - cbn. lia.
+  - intros r c. rewrite cell_init. cbn. unfold plt. split; [congruence|lia].
+  - intros r. rewrite cnt_init. cbn. unfold cnt_at. dif; lia.
+  - intros r. rewrite nil_init, cnt_init. tauto.
+  - intros r c id. rewrite cell_init. discriminate.
+  - intros fd g. cbn. rewrite zget_zempty. discriminate.
+Qed.
+
+(* ---- addConn ---- *)
+Lemma mx_add_views : forall st id fd, m_row st < ROW ->
+  let r := m_row st in let c := m_col st in
+  let st' := mx_add ROW COL st id fd in
+  m_dc st' = m_dc st /\
+  (m_row st' = (if c + 1 =? COL then r + 1 else r)) /\
+  (m_col st' = (if c + 1 =? COL then 0 else c + 1)) /\
+  (forall x, cnt st' x = if x =? r then cnt st r + 1 else cnt st x) /\
+  (forall x, row_nil st' x = if x =? r then false else row_nil st x) /\
+  (forall x y, cell st' x y = if (x =? r) && (y =? c) then Some id else cell st x y) /\
+  m_f2g st' = zset (m_f2g st) fd (mkGfd r c fd) /\
+  m_heap st' = zset (m_heap st) id (mkConn fd (mkGfd r c fd)).
+Proof.
+  intros st id fd Hrow r c st'. subst st'. unfold mx_add.
+  replace (ROW <=? m_row st) with false by lia. fold r c.
+  set (st1 := if row_nil st r then set_table st (zset (m_table st) r zempty) else st).
+  assert (F1 : frame_table st st1) by (subst st1; destruct (row_nil st r); repeat split).
+  assert (C1 : forall x y, cell st1 x y = cell st x y).
+  { intros. subst st1. destruct (row_nil st r) eqn:E; [apply cell_alloc; exact E|reflexivity]. }
+  assert (N1 : forall x, row_nil st1 x = if x =? r then false else row_nil st x).
+  { intros. subst st1. destruct (row_nil st r) eqn:E.
+    - apply nil_alloc.
+    - destruct (Z.eqb_spec x r); subst; auto. }
+  destruct F1 as (Fdc & Fcn & Frow & Fcol & Ff & Fh).
+  set (g := mkGfd r c fd).
+  set (st3 := set_f2g (set_heap st1 (zset (m_heap st1) id (mkConn fd g))) _).
+  destruct (set_cell_ret st3 r c (Some id)) as (st4 & E4 & F4 & C4 & N4).
+  { subst st3. autorewrite with mxv. rewrite N1. rewrite Z.eqb_refl. reflexivity. }
+  rewrite E4.
+  assert (K4 : forall x, cnt st4 x = cnt st x).
+  { intros. rewrite (frame_table_cnt _ _ _ F4). subst st3. autorewrite with mxv. unfold cnt. rewrite Fcn. reflexivity. }
+  destruct F4 as (Gdc & Gcn & Grow & Gcol & Gf & Gh).
+  set (fin := if c + 1 =? COL then _ else _).
+  assert (m_dc fin = m_dc st /\ m_f2g fin = zset (m_f2g st) fd g /\ m_heap fin = zset (m_heap st) id (mkConn fd g)
+          /\ (forall x, cnt fin x = if x =? r then cnt st r + 1 else cnt st x)
+          /\ (forall x, row_nil fin x = if x =? r then false else row_nil st x)
+          /\ (forall x y, cell fin x y = if (x =? r) && (y =? c) then Some id else cell st x y)) as (A1 & A2 & A3 & A4 & A5 & A6).
+  { subst fin. destruct (c + 1 =? COL); splits.
+    all: try (intros x y; autorewrite with mxv; rewrite C4; subst st3; autorewrite with mxv; rewrite C1; reflexivity).
+    all: try (intros x; autorewrite with mxv; rewrite ?K4; reflexivity).
+    all: try (intros x; autorewrite with mxv; rewrite N4; subst st3; autorewrite with mxv; apply N1).
+    all: fields; rewrite ?Gdc, ?Gf, ?Gh; subst st3; fields; rewrite ?Fdc, ?Ff, ?Fh; reflexivity. }
+  splits; auto.
+  - subst fin. destruct (c + 1 =? COL); reflexivity.
+  - subst fin. destruct (c + 1 =? COL); reflexivity.
+Qed.
+
+Lemma mx_add_inv : forall st id fd,
+  inv st -> m_row st < ROW -> mx_get st fd = None -> (forall r c, cell st r c <> Some id) ->
+  inv (mx_add ROW COL st id fd) /\
+  (forall fd', mx_get (mx_add ROW COL st id fd) fd' = if fd' =? fd then Some id else mx_get st fd') /\
+  population COL (mx_add ROW COL st id fd) = population COL st + 1.
+Proof.
+  intros st id fd I Hrow Hget Hfresh.
+  destruct (mx_add_views st id fd Hrow) as (Vdc & Vrow & Vcol & Vcnt & Vnil & Vcell & Vf & Vh).
+  set (st' := mx_add ROW COL st id fd) in *.
+  set (r := m_row st) in *. set (c := m_col st) in *.
+  pose proof (inv_next _ _ _ I) as (Hr & Hc & _). fold r c in Hr, Hc.
+  assert (Hf2g : zget (m_f2g st) fd = None) by (apply mx_get_none_f2g; auto).
+  assert (Hnone : cell st r c = None).
+  { apply dead_cell_none; auto. fold r c. unfold plt. lia. }
+  assert (I' : inv st').
+  { constructor.
+    - rewrite Vdc. apply (inv_dc _ _ _ I).
+    - rewrite Vrow, Vcol. dif; lia.
+    - intros x y. rewrite Vcell, Vrow, Vcol.
+      pose proof (inv_live _ _ _ I x y) as L. fold r c in L. unfold plt in *.
+      destruct ((x =? r) && (y =? c)) eqn:E.
+      + split; [intros _|congruence]. dif; lia.
+      + rewrite L. dif; lia.
+    - intros x. rewrite Vcnt, Vrow, Vcol. rewrite !(inv_cnt _ _ _ I). fold r c. unfold cnt_at. dif; lia.
+    - intros x. rewrite Vnil, Vcnt. pose proof (inv_nil _ _ _ I x) as L.
+      rewrite (inv_cnt _ _ _ I r). fold r c. unfold cnt_at.
+      destruct (Z.eqb_spec x r); [|exact L]. split; [discriminate|]. dif; lia.
+    - intros x y i. rewrite Vcell, Vf, Vh. destruct ((x =? r) && (y =? c)) eqn:E.
+      + intros H. inversion H; subst i. exists fd. rewrite !zget_zset, !Z.eqb_refl.
+        assert (x = r /\ y = c) as (-> & ->) by lia. auto.
+      + intros H. destruct (inv_cell _ _ _ I _ _ _ H) as (fd0 & Hh & Hg).
+        exists fd0. rewrite !zget_zset.
+        destruct (Z.eqb_spec i id) as [->|_]; [exfalso; eapply Hfresh; eauto|].
+        destruct (Z.eqb_spec fd0 fd) as [->|_]; [congruence|]. auto.
+    - intros fd' g. rewrite Vf, Vh, zget_zset. destruct (Z.eqb_spec fd' fd) as [->|N].
+      + intros H. inversion H; subst g. cbn. split; [reflexivity|]. exists id.
+        rewrite Vcell, !Z.eqb_refl, zget_zset, Z.eqb_refl. auto.
+      + intros H. destruct (inv_f2g _ _ _ I _ _ H) as (Hfd & id0 & Hc0 & Hh0).
+        split; [exact Hfd|]. exists id0. rewrite Vcell, zget_zset.
+        destruct ((g_row g =? r) && (g_col g =? c)) eqn:E.
+        * assert (g_row g = r /\ g_col g = c) as (E1 & E2) by lia. rewrite E1, E2 in Hc0. congruence.
+        * destruct (Z.eqb_spec id0 id) as [->|_]; [exfalso; eapply Hfresh; eauto|]. auto. }
+  splits; auto.
+  - intros fd'. unfold mx_get. rewrite Vf, zget_zset.
+    destruct (Z.eqb_spec fd' fd) as [->|N].
+    + cbn. rewrite Vcell, !Z.eqb_refl. reflexivity.
+    + destruct (zget (m_f2g st) fd') as [g|] eqn:E; [|reflexivity].
+      rewrite Vcell. destruct ((g_row g =? r) && (g_col g =? c)) eqn:E'; [|reflexivity].
+      destruct (inv_f2g _ _ _ I _ _ E) as (_ & id0 & Hc0 & _).
+      assert (g_row g = r /\ g_col g = c) as (E1 & E2) by lia. rewrite E1, E2 in Hc0. congruence.
+  - unfold population. rewrite Vrow, Vcol. fold r c. dif; nia.
+Qed.
+
+(* ---- the backward column scan ---- *)
+Definition lc_step (lo : Z) (best : option (Z * Z)) (kv : Z * Z) : option (Z * Z) :=
+  if (lo <? fst kv) && (fst kv <? COL) &&
+     (match best with None => true | Some b => fst b <? fst kv end)
+  then Some kv else best.
+
+Lemma last_col_unfold : forall rowm lo, last_col COL rowm lo = fold_left (lc_step lo) (zelems rowm) None.
+Proof. reflexivity. Qed.
+
+Lemma lc_fold_none : forall lo l best,
+  (forall kv, In kv l -> ~ (lo < fst kv < COL)) -> fold_left (lc_step lo) l best = best.
+Proof.
+  induction l as [|kv l IH]; intros best H; cbn; [reflexivity|].
+  rewrite IH by (intros; apply H; cbn; auto).
+  unfold lc_step. assert (~ (lo < fst kv < COL)) by (apply H; cbn; auto).
+  replace ((lo <? fst kv) && (fst kv <? COL)) with false by lia. reflexivity.
+Qed.
+
+Lemma lc_step_good : forall lo c v kv best,
+  lo < c < COL ->
+  (lo < fst kv < COL -> fst kv <= c) -> (fst kv = c -> kv = (c, v)) ->
+  (match best with None => True | Some b => fst b < c \/ b = (c, v) end) ->
+  (match lc_step lo best kv with None => True | Some b => fst b < c \/ b = (c, v) end) /\
+  (kv = (c, v) \/ best = Some (c, v) -> lc_step lo best kv = Some (c, v)).
+Proof.
+  intros lo c v [k w] best Hc Hle Huniq Hbest. cbn [fst] in *. unfold lc_step. cbn [fst].
+  destruct (Z.eq_dec k c) as [E|N].
+  - specialize (Huniq E). inversion Huniq; subst k w.
+    destruct best as [[bk bv]|]; cbn [fst] in *.
+    + destruct Hbest as [Hb|Hb].
+      * replace ((lo <? c) && (c <? COL) && (bk <? c)) with true by lia. auto.
+      * inversion Hb; subst. replace ((lo <? c) && (c <? COL) && (c <? c)) with false by lia. auto.
+    + replace ((lo <? c) && (c <? COL) && true) with true by lia. auto.
+  - split.
+    + destruct ((lo <? k) && (k <? COL) && _) eqn:T; [|exact Hbest].
+      left. cbn. assert (k <= c) by (apply Hle; lia). lia.
+    + intros [H|H]; [inversion H; congruence|]. subst best. cbn [fst].
+      assert (lo < k < COL -> k <= c) by exact Hle.
+      replace ((lo <? k) && (k <? COL) && (c <? k)) with false by lia. reflexivity.
+Qed.
+
+Lemma lc_fold_some : forall lo c v l best,
+  lo < c < COL ->
+  (forall kv, In kv l -> lo < fst kv < COL -> fst kv <= c) ->
+  (forall kv, In kv l -> fst kv = c -> kv = (c, v)) ->
+  (match best with None => True | Some b => fst b < c \/ b = (c, v) end) ->
+  (In (c, v) l \/ best = Some (c, v)) ->
+  fold_left (lc_step lo) l best = Some (c, v).
+Proof.
+  induction l as [|kv l IH]; intros best Hc Hle Huniq Hbest Hin; cbn.
+  - destruct Hin as [[]|H]; exact H.
+  - destruct (lc_step_good lo c v kv best Hc) as (G1 & G2); auto.
+    { apply Hle; cbn; auto. } { apply Huniq; cbn; auto. }
+    apply IH; auto.
+    + intros; apply Hle; cbn; auto.
+    + intros; apply Huniq; cbn; auto.
+    + destruct Hin as [[H|H]|H]; [right; apply G2; auto|left; exact H|right; apply G2; auto].
+Qed.
+
+Lemma last_col_none : forall rowm lo,
+  (forall c, lo < c < COL -> zget rowm c = None) -> last_col COL rowm lo = None.
+Proof.
+  intros rowm lo H. rewrite last_col_unfold. apply lc_fold_none.
+  intros [k v] Hin Hr. apply zelems_spec in Hin. cbn in Hr. rewrite H in Hin by lia. discriminate.
+Qed.
+
+Lemma last_col_some : forall rowm lo c v,
+  zget rowm c = Some v -> lo < c < COL ->
+  (forall c', c < c' < COL -> zget rowm c' = None) ->
+  last_col COL rowm lo = Some (c, v).
+Proof.
+  intros rowm lo c v Hg Hc Hmax. rewrite last_col_unfold. apply lc_fold_some; auto.
+  - intros [k w] Hin Hr. cbn in *. apply zelems_spec in Hin.
+    destruct (Z_le_gt_dec k c); [assumption|]. rewrite Hmax in Hin by lia. discriminate.
+  - intros [k w] Hin E. cbn in E. subst k. apply zelems_spec in Hin. congruence.
+  - left. apply zelems_spec. exact Hg.
+Qed.
+
+(* ---- delConn ---- *)
+Lemma scan_rows_skip : forall st r cl rows1 rows2,
+  (forall x, In x rows1 -> cnt st x = 0) ->
+  scan_rows COL st r cl (rows1 ++ rows2) = scan_rows COL st r cl rows2.
+Proof.
+  induction rows1 as [|x rows1 IH]; intros rows2 H; cbn [app scan_rows]; [reflexivity|].
+  rewrite (H x) by (cbn; auto). cbn. apply IH. intros; apply H; cbn; auto.
+Qed.
+
+Lemma row_nil_false_rowm : forall st x, row_nil st x = false ->
+  exists rowm, zget (m_table st) x = Some rowm /\ forall y, cell st x y = zget rowm y.
+Proof.
+  intros st x H. unfold row_nil in H. destruct (zget (m_table st) x) as [rowm|] eqn:E; [|discriminate].
+  exists rowm. split; [reflexivity|]. intros y. unfold cell. rewrite E. reflexivity.
+Qed.
+
+(* what delConn leaves behind: D = (r, cl) is the deleted position, L = (lr, lc)
+   the last live position before the call, whose connection idL (descriptor fdL)
+   is moved into D unless D = L *)
+Definition del_post (st st' : matst) (r cl lr lc idL fd fdL : Z) : Prop :=
+  let moved := negb ((r =? lr) && (cl =? lc)) in
+  m_dc st' = false /\ m_row st' = lr /\ m_col st' = lc /\
+  (forall x, cnt st' x = cnt st x - (if x =? lr then 1 else 0)) /\
+  (forall x, row_nil st' x = if (x =? lr) && (cnt st lr =? 1) then true else row_nil st x) /\
+  (forall x y, cell st' x y = if (x =? lr) && (y =? lc) then None
+                              else if (x =? r) && (y =? cl) then Some idL else cell st x y) /\
+  (forall x, zget (m_f2g st') x = if (x =? fdL) && moved then Some (mkGfd r cl fdL)
+                                  else if x =? fd then None else zget (m_f2g st) x) /\
+  (forall i, zget (m_heap st') i = if (i =? idL) && moved then Some (mkConn fdL (mkGfd r cl fdL))
+                                   else zget (m_heap st) i).
+
+Lemma rows_split : forall r lr, 0 <= r <= lr -> lr < ROW ->
+  rev_append (zseq r (ROW - r)) [] =
+  rev (zseq (lr + 1) (ROW - lr - 1)) ++ lr :: rev (zseq r (lr - r)).
+Proof.
+  intros r lr H1 H2. rewrite rev_append_nil.
+  replace (ROW - r) with ((lr - r) + (1 + (ROW - lr - 1))) by lia.
+  rewrite zseq_app by lia. rewrite (zseq_app (r + (lr - r))) by lia.
+  rewrite !rev_app_distr. replace (r + (lr - r)) with lr by lia.
+  rewrite (zseq_cons lr 1) by lia. rewrite (zseq_nil _ (1 - 1)) by lia. cbn [rev app].
+  rewrite <- app_assoc. reflexivity.
+Qed.
+
+Lemma mx_del_exec : forall st id fd r cl lr lc idL fdL,
+  inv st ->
+  zget (m_heap st) id = Some (mkConn fd (mkGfd r cl fd)) -> cell st r cl = Some id ->
+  ((0 < m_col st /\ lr = m_row st /\ lc = m_col st - 1) \/
+   (m_col st = 0 /\ lr = m_row st - 1 /\ lc = COL - 1)) ->
+  cell st lr lc = Some idL -> zget (m_heap st) idL = Some (mkConn fdL (mkGfd lr lc fdL)) ->
+  exists st', mx_del ROW COL st id = Ret st' /\ del_post st st' r cl lr lc idL fd fdL.
+Proof.
+  intros st id fd r cl lr lc idL fdL I Hh Hc HL HcL HhL.
+  pose proof (cell_some_live _ _ _ _ I Hc) as (Hr0 & Hcl & Hplt).
+  pose proof (cell_some_live _ _ _ _ I HcL) as (Hlr0 & Hlc & HpltL).
+  pose proof (inv_next _ _ _ I) as (Hrow & Hcol & Hfull).
+  pose proof (inv_cnt _ _ _ I) as Hcnt.
+  pose proof (inv_dc _ _ _ I) as Hdc.
+  set (row := m_row st) in *. set (col := m_col st) in *.
+  assert (HDL : plt r cl lr lc \/ (r = lr /\ cl = lc)) by (unfold plt in *; lia).
+  unfold mx_del. rewrite Hh. cbn [c_gfd g_row g_col c_fd].
+  set (st2 := inc_count (set_f2g st (zdel (m_f2g st) fd)) r (-1)).
+  assert (K2 : forall x, cnt st2 x = if x =? r then cnt st r - 1 else cnt st x).
+  { intros. subst st2. autorewrite with mxv. replace (cnt st r + -1) with (cnt st r - 1) by lia. reflexivity. }
+  unfold release_or_clear. rewrite K2, Z.eqb_refl.
+  assert (Hcond : forall s, m_row s = row -> m_col s = col -> (r <? m_row s) || (cl <? m_col s) = true).
+  { intros s -> ->. unfold plt in Hplt. lia. }
+  destruct (cnt st r - 1 =? 0) eqn:EA.
+  - (* the row of the deleted connection becomes empty: it was the last connection *)
+    assert (r = row /\ col = 1 /\ cl = 0 /\ lr = r /\ lc = 0) as (-> & Hcol1 & -> & -> & ->).
+    { rewrite Hcnt in EA. unfold cnt_at, plt in *. dif_in EA; lia. }
+    cbn [obind]. rewrite Hcond by reflexivity.
+    autorewrite with mxv. rewrite Z.eqb_refl, Bool.orb_true_r.
+    eexists. split; [reflexivity|]. unfold del_post.
+    rewrite !Z.eqb_refl. cbn [andb negb].
+    splits.
+    + fields. exact Hdc.
+    + reflexivity.
+    + reflexivity.
+    + intros x. autorewrite with mxv. rewrite K2. difs; lia.
+    + intros x. autorewrite with mxv. subst st2. autorewrite with mxv.
+      replace (cnt st row =? 1) with true by lia. dif; reflexivity.
+    + intros x y. autorewrite with mxv. subst st2. autorewrite with mxv.
+      destruct (Z.eqb_spec x row) as [->|N]; cbn [andb]; [|reflexivity].
+      destruct (Z.eqb_spec y 0) as [->|N0]; [reflexivity|].
+      symmetry. apply cell_none_out; auto. fold row col. unfold plt. lia.
+    + intros x. subst st2. fields. rewrite zget_zdel. rewrite Bool.andb_false_r. reflexivity.
+    + intros i. subst st2. fields. rewrite Bool.andb_false_r. reflexivity.
+  - (* the row keeps other connections: clear the cell, then compact *)
+    assert (Hc2 : 2 <= cnt st r) by (rewrite Hcnt in *; unfold cnt_at, plt in *; dif_in EA; dif; lia).
+    assert (Hnil : row_nil st r = false).
+    { destruct (row_nil st r) eqn:E; [|reflexivity]. apply (inv_nil _ _ _ I) in E. lia. }
+    destruct (set_cell_ret st2 r cl None) as (st3 & E3 & F3 & C3 & N3).
+    { subst st2. autorewrite with mxv. exact Hnil. }
+    rewrite E3. cbn [obind].
+    destruct F3 as (Fdc & Fcn & Frow & Fcol & Ff & Fh).
+    rewrite Hcond by (rewrite ?Frow, ?Fcol; reflexivity).
+    set (st4 := set_next st3 r cl).
+    assert (Hdc4 : m_dc st4 = false) by (subst st4; fields; rewrite Fdc; subst st2; fields; exact Hdc).
+    assert (N4 : forall x, row_nil st4 x = row_nil st x).
+    { intros. subst st4. autorewrite with mxv. rewrite N3. subst st2. autorewrite with mxv. reflexivity. }
+    assert (K4 : forall x, cnt st4 x = if x =? r then cnt st r - 1 else cnt st x).
+    { intros. subst st4. autorewrite with mxv. unfold cnt at 1. rewrite Fcn. apply K2. }
+    assert (C4 : forall x y, cell st4 x y = if (x =? r) && (y =? cl) then None else cell st x y).
+    { intros. subst st4. autorewrite with mxv. rewrite C3. subst st2. autorewrite with mxv. reflexivity. }
+    rewrite Hdc4, N4, Hnil. cbn [orb].
+    assert (Hlr : lr < ROW) by (unfold plt in *; lia).
+    rewrite (rows_split r lr) by (unfold plt in *; lia).
+    rewrite scan_rows_skip.
+    2:{ intros x Hx. apply in_rev in Hx. apply zseq_in in Hx. rewrite K4.
+        replace (x =? r) with false by (unfold plt in *; lia). rewrite Hcnt. unfold cnt_at. dif; lia. }
+    cbn [scan_rows].
+    assert (HcntL : 1 <= cnt st lr) by (rewrite Hcnt; unfold cnt_at, plt in *; dif; lia).
+    replace (cnt st4 lr =? 0) with false by (rewrite K4; dif; lia).
+    assert (HnilL : row_nil st lr = false).
+    { destruct (row_nil st lr) eqn:E; [|reflexivity]. apply (inv_nil _ _ _ I) in E. lia. }
+    destruct (row_nil_false_rowm st4 lr) as (rowm & Erow & Crow); [rewrite N4; exact HnilL|].
+    rewrite Erow.
+    assert (Habove : forall c, lc < c < COL -> zget rowm c = None).
+    { intros c Hc'. rewrite <- Crow, C4.
+      replace ((lr =? r) && (c =? cl)) with false by (unfold plt in *; lia).
+      apply cell_none_out; auto. fold row col. unfold plt in *. lia. }
+    destruct HDL as [HDL|(-> & ->)].
+    + (* move the last connection into the freed position *)
+      rewrite (last_col_some rowm _ lc idL).
+      2:{ rewrite <- Crow, C4. replace ((lr =? r) && (lc =? cl)) with false by (unfold plt in *; lia). exact HcL. }
+      2:{ unfold plt in *. dif; lia. }
+      2:{ exact Habove. }
+      unfold relocate.
+      assert (Hh4 : m_heap st4 = m_heap st) by (subst st4; fields; rewrite Fh; reflexivity).
+      assert (Hf4 : m_f2g st4 = zdel (m_f2g st) fd) by (subst st4; fields; rewrite Ff; reflexivity).
+      rewrite Hh4, HhL. cbn [c_gfd g_fd c_fd].
+      set (g := mkGfd r cl fdL).
+      set (st6 := set_f2g _ _).
+      destruct (set_cell_ret st6 r cl (Some idL)) as (st7 & E7 & F7 & C7 & N7).
+      { subst st6. autorewrite with mxv. rewrite N4. exact Hnil. }
+      rewrite E7. cbn [obind].
+      set (st8 := inc_count (inc_count st7 lr (-1)) r 1).
+      assert (K8 : forall x, cnt st8 x = cnt st x - (if x =? lr then 1 else 0)).
+      { intros. subst st8. autorewrite with mxv. rewrite !(frame_table_cnt _ _ _ F7).
+        subst st6. autorewrite with mxv. rewrite !K4. difs; lia. }
+      unfold release_or_clear. rewrite K8, Z.eqb_refl.
+      assert (Hmoved : negb ((r =? lr) && (cl =? lc)) = true) by (unfold plt in *; lia).
+      destruct F7 as (Gdc & Gcn & Grow & Gcol & Gf & Gh).
+      assert (N8 : forall x, row_nil st8 x = row_nil st x).
+      { intros. subst st8. autorewrite with mxv. rewrite N7. subst st6. autorewrite with mxv. apply N4. }
+      assert (C8 : forall x y, cell st8 x y = if (x =? r) && (y =? cl) then Some idL else cell st x y).
+      { intros. subst st8. autorewrite with mxv. rewrite C7. subst st6. autorewrite with mxv. rewrite C4.
+        dif; reflexivity. }
+      assert (Hf8 : m_f2g st8 = zset (zdel (m_f2g st) fd) fdL g).
+      { subst st8. fields. rewrite Gf. subst st6. fields. rewrite Hf4. reflexivity. }
+      assert (Hh8 : m_heap st8 = zset (m_heap st) idL (mkConn fdL g)).
+      { subst st8. fields. rewrite Gh. subst st6. fields. reflexivity. }
+      assert (Hdc8 : m_dc st8 = false).
+      { subst st8. fields. rewrite Gdc. subst st6. fields. exact Hdc4. }
+      destruct (cnt st lr - 1 =? 0) eqn:EL.
+      * (* the last connection was alone in its row: release that row *)
+        assert (lr = row /\ col = 1 /\ lc = 0) as (-> & Hcol1 & ->).
+        { rewrite Hcnt in EL. unfold cnt_at, plt in *. dif_in EL; lia. }
+        cbn [obind]. eexists. split; [reflexivity|]. unfold del_post. rewrite Hmoved. splits.
+        -- fields. exact Hdc8.
+        -- reflexivity.
+        -- reflexivity.
+        -- intros x. autorewrite with mxv. apply K8.
+        -- intros x. autorewrite with mxv. rewrite N8. replace (cnt st row =? 1) with true by lia.
+           dif; reflexivity.
+        -- intros x y. autorewrite with mxv. rewrite C8.
+           destruct (Z.eqb_spec x row) as [->|N]; cbn [andb]; [|reflexivity].
+           destruct (Z.eqb_spec y 0) as [->|N0]; [reflexivity|].
+           replace (row =? r) with false by (unfold plt in *; lia). cbn [andb].
+           symmetry. apply cell_none_out; auto. fold row col. unfold plt. lia.
+        -- intros x. fields. rewrite Hf8, zget_zset, zget_zdel. rewrite Bool.andb_true_r. reflexivity.
+        -- intros i. fields. rewrite Hh8, zget_zset. rewrite Bool.andb_true_r. reflexivity.
+      * destruct (set_cell_ret st8 lr lc None) as (st9 & E9 & F9 & C9 & N9).
+        { rewrite N8. exact HnilL. }
+        rewrite E9. cbn [obind]. eexists. split; [reflexivity|]. unfold del_post. rewrite Hmoved.
+        destruct F9 as (Jdc & Jcn & Jrow & Jcol & Jf & Jh).
+        splits.
+        -- fields. rewrite Jdc. exact Hdc8.
+        -- reflexivity.
+        -- reflexivity.
+        -- intros x. autorewrite with mxv. unfold cnt at 1. rewrite Jcn. apply K8.
+        -- intros x. autorewrite with mxv. rewrite N9, N8. replace (cnt st lr =? 1) with false by lia.
+           rewrite Bool.andb_false_r. reflexivity.
+        -- intros x y. autorewrite with mxv. rewrite C9, C8. reflexivity.
+        -- intros x. fields. rewrite Jf, Hf8, zget_zset, zget_zdel. rewrite Bool.andb_true_r. reflexivity.
+        -- intros i. fields. rewrite Jh, Hh8, zget_zset. rewrite Bool.andb_true_r. reflexivity.
+    + (* the deleted connection was the last one: nothing to move *)
+      rewrite Z.eqb_refl. rewrite (last_col_none rowm lc) by exact Habove.
+      replace (lr - lr) with 0 by lia. rewrite zseq_nil by lia. cbn [rev scan_rows].
+      eexists. split; [reflexivity|]. unfold del_post. rewrite !Z.eqb_refl. cbn [andb negb].
+      splits.
+      * exact Hdc4.
+      * reflexivity.
+      * reflexivity.
+      * intros x. rewrite K4. difs; lia.
+      * intros x. rewrite N4. replace (cnt st lr =? 1) with false by lia.
+        rewrite Bool.andb_false_r. reflexivity.
+      * intros x y. rewrite C4. dif; reflexivity.
+      * intros x. rewrite Bool.andb_false_r. subst st4. fields. rewrite Ff. subst st2. fields.
+        apply zget_zdel.
+      * intros i. rewrite Bool.andb_false_r. subst st4. fields. rewrite Fh. reflexivity.
+Qed.
